@@ -1,6 +1,7 @@
 (* C19 — FFT and polynomial kernels equal their mathematical definitions. *)
 From Coq Require Import ZArith List Bool Arith.
 From PlonkV Require Import Base.Fr Base.FrFacts Alg.Poly Alg.PolyFacts Alg.FFT Alg.FFTFacts.
+From PlonkV Require Import Alg.Lagrange.
 Import ListNotations.
 Local Open Scope fr_scope.
 
@@ -140,3 +141,58 @@ Check C19_fft_ifft : forall (PR : PrimeR) num_coeffs ev,
   let k := domain_log num_coeffs in
   fft num_coeffs (ifft num_coeffs ev) = resize (Nat.pow 2 k) ev.
 Print Assumptions C19_fft_ifft.
+
+(* ---- closed forms equal their definitions ---- *)
+(* the vanishing polynomial X^n - 1 is zero exactly on the domain *)
+Theorem C19_vanishing_iff_domain : forall (PR : PrimeR) k tau, (1 <= k <= 32)%nat ->
+  vanishing_eval k tau = fzero <-> In tau (powers (domain_gen k) (Nat.pow 2 k)).
+Proof. exact @vanishing_iff_domain. Qed.
+Check C19_vanishing_iff_domain : forall (PR : PrimeR) k tau, (1 <= k <= 32)%nat ->
+  vanishing_eval k tau = fzero <-> In tau (powers (domain_gen k) (Nat.pow 2 k)).
+Print Assumptions C19_vanishing_iff_domain.
+
+(* evaluate_all_lagrange_coefficients(tau)[i] = (interpolant of the i-th unit vector)(tau),
+   for tau inside or outside the domain *)
+Theorem C19_lagrange_is_interpolant : forall (PR : PrimeR) num_coeffs tau i,
+  (domain_log num_coeffs <= 32)%nat ->
+  let k := domain_log num_coeffs in
+  (i < Nat.pow 2 k)%nat ->
+  nth i (lagrange_all k tau) fzero = peval (ifft num_coeffs (unit_vec (Nat.pow 2 k) i)) tau.
+Proof. exact @lagrange_is_interpolant. Qed.
+Check C19_lagrange_is_interpolant : forall (PR : PrimeR) num_coeffs tau i,
+  (domain_log num_coeffs <= 32)%nat ->
+  let k := domain_log num_coeffs in
+  (i < Nat.pow 2 k)%nat ->
+  nth i (lagrange_all k tau) fzero = peval (ifft num_coeffs (unit_vec (Nat.pow 2 k) i)) tau.
+Print Assumptions C19_lagrange_is_interpolant.
+
+(* barycentric evaluation of an evaluation vector = its interpolating polynomial at the point *)
+Theorem C19_barycentric_is_interpolant : forall (PR : PrimeR) num_coeffs evals point,
+  (domain_log num_coeffs <= 32)%nat ->
+  let k := domain_log num_coeffs in
+  length evals = Nat.pow 2 k ->
+  interp_eval k evals point = peval (ifft num_coeffs evals) point.
+Proof. exact @interp_eval_is_interpolant. Qed.
+Check C19_barycentric_is_interpolant : forall (PR : PrimeR) num_coeffs evals point,
+  (domain_log num_coeffs <= 32)%nat ->
+  let k := domain_log num_coeffs in
+  length evals = Nat.pow 2 k ->
+  interp_eval k evals point = peval (ifft num_coeffs evals) point.
+Print Assumptions C19_barycentric_is_interpolant.
+
+(* Montgomery's trick as coded (forward prefix products, one inversion, backward pass)
+   = entry-wise inversion that leaves zeros *)
+Theorem C19_batch_inversion_montgomery : forall (PR : PrimeR) v,
+  fst (montgomery v fone) = batch_inversion v
+  /\ (forall i, nth i v fzero <> fzero -> fmul (nth i v fzero) (nth i (batch_inversion v) fzero) = fone)
+  /\ (forall i, nth i v fzero = fzero -> nth i (batch_inversion v) fzero = fzero).
+Proof.
+  intros PR v. split; [apply batch_inversion_montgomery|]. split; intros i H.
+  - apply batch_inversion_inverts; exact H.
+  - apply batch_inversion_zeros; exact H.
+Qed.
+Check C19_batch_inversion_montgomery : forall (PR : PrimeR) v,
+  fst (montgomery v fone) = batch_inversion v
+  /\ (forall i, nth i v fzero <> fzero -> fmul (nth i v fzero) (nth i (batch_inversion v) fzero) = fone)
+  /\ (forall i, nth i v fzero = fzero -> nth i (batch_inversion v) fzero = fzero).
+Print Assumptions C19_batch_inversion_montgomery.
